@@ -252,6 +252,18 @@ func runCheck(id, only string, noEv bool) int {
 			}
 			e.globals = append(e.globals, &GlobalInv{D: d, Fn: fn})
 		case "assume": // an assumed contract of a function that is not verified (trusted; listed in the evidence)
+			if hasArg(d, "iface") { // on an interface method: the name is the method's full name
+				full := d.Fn
+				if strings.HasPrefix(full, "(*") && !strings.Contains(full, "/") { // relative to this package: (*T).M
+					full = "(*" + pp + "." + strings.TrimPrefix(full, "(*")
+				} else if strings.HasPrefix(full, "(") && !strings.Contains(full, "/") { // (T).M
+					full = "(" + pp + "." + strings.TrimPrefix(full, "(")
+				} else if !strings.Contains(full, "/") && !strings.Contains(full, ".") { // a function of this package
+					full = pp + "." + full
+				}
+				e.ifaceContracts[full] = &Contract{D: d, SpecPkg: ssaPkgOf[d.PkgDir]}
+				continue
+			}
 			fn := resolveFn(all, pp, d.Fn)
 			if fn == nil {
 				return die(2, id, "%s:%d: function %s not found", d.File, d.Line, d.Fn)
